@@ -7,7 +7,7 @@
     induction over the reverse index for every decision sequence. *)
 From Coq Require Import NArith.
 From stdpp Require Import base list.
-From Gecs Require Import Prim ExtrQuery Storage Query World Run VersionFacts StorageInv StorageResolve StorageHist StorageOps RunFacts WorldInv LoopFacts Examples.
+From Gecs Require Import Prim ExtrQuery Storage Query World Run VersionFacts StorageInv StorageResolve StorageHist StorageOps RunFacts WorldInv LoopFacts LoopPanic Examples.
 Local Open Scope nat_scope.
 
 (** positions below the removed one keep their entity and values (these are the ones still to visit). *)
@@ -72,6 +72,29 @@ Theorem C07_loop_never_ub : forall cfg d decs archs w, Forall2 SInv archs w ->
   end.
 Proof. exact iterd_world_ok. Qed.
 
+(** The loop left by a panic (closure panic, Drop of a removed component, generation or version
+    overflow inside destroy; wrapping or not): k >= 1 visits of distinct positions in reverse, each
+    seeing the original row; no earlier visit asked to stop; the panic has one of the documented
+    causes; and the surviving rows are exactly the original rows except those visited, flagged and
+    actually removed: every flagged visit before the last, and the last one exactly when the panic
+    came from the Drop of the row it had just removed ([gone]).  An entity is thus either fully
+    present or fully absent after the panic (C10), and nothing unflagged was removed. *)
+Theorem C07_loop_left_by_a_panic_removed_exactly_the_completed :
+  forall cfg ad acc nz decs s ord din p s1 recs ds ord1 stp din1,
+  iter_destroy_version_in_loop = true -> wf_access ad acc -> SInv ad s ->
+  iterd_arch cfg (len s) s (version s) acc nz ord decs din = Panic p (s1, recs, ds, ord1, stp, din1) ->
+  exists k, 1 <= k /\ ord1 = ord + k /\ length recs = k /\ k <= len s /\ SInv ad s1 /\ stp = SPanic /\
+    (forall t, t < k -> exists rec, recs !! t = Some rec /\ visit_ok cfg ad acc s (len s - 1 - t) rec) /\
+    (forall t, t + 1 < k -> breaks (dec_at decs (ord + t)) = false) /\
+    panic_cause p (dec_at decs (ord + (k - 1))) /\
+    (forall x, (exists j, j < len s1 /\ abs_at s1 j = Some x) <->
+               (exists i, i < len s /\ abs_at s i = Some x /\
+                          ~ (len s - 1 - i < k /\ gone p k decs ord (len s - 1 - i) = true))).
+Proof. exact iterd_arch_panic_whole. Qed.
+Check (eq_refl : gone PDrop 2 [DContinueDestroy; DContinueDestroy] 0 1 = true).
+Check (eq_refl : gone PClosure 2 [DContinueDestroy; DClosurePanic] 0 1 = false).
+Check (eq_refl : gone PSlotOverflow 1 [DContinueDestroy] 0 0 = false).
+
 (** Break/BreakDestroy ends the whole query: later archetypes are returned untouched. *)
 Theorem C07_break_ends_the_whole_query : forall cfg d a ar s wr acc pr ord decs din s1 recs ds ord1 din1,
   iterd_arch cfg (len s) s (version s) acc (nz_cols d a) ord decs din = Ok (s1, recs, ds, ord1, SBreak, din1) tt ->
@@ -89,6 +112,16 @@ Example C07_concrete_loop :
   match iterd_arch ex_cfg (len ex3) ex3 (version ex3) c07_acc 2%N 0 [DContinue; DContinueDestroy; DBreak] 0%N with
   | Ok (s1, recs, ds, ord1, stp, _) _ =>
       ents s1 = [(3, 1); (515, 1)]%N /\ cols s1 = [[10; 30]; [11; 31]]%N /\ ds = [(515, 1); (259, 1); (3, 2)]%N /\ ord1 = 3 /\ stp = SBreak
+  | _ => False
+  end.
+Proof. vm_compute. repeat split; reflexivity. Qed.
+
+(** ... and a loop whose second closure call panics after the first visit flagged its entity: two
+    visits (515, 259), 515 is gone, 259 and 3 remain. *)
+Example C07_concrete_panicking_loop :
+  match iterd_arch ex_cfg (len ex3) ex3 (version ex3) c07_acc 2%N 0 [DContinueDestroy; DClosurePanic; DContinue] 0%N with
+  | Panic p (s1, recs, ds, ord1, stp, _) =>
+      p = PClosure /\ ents s1 = [(3, 1); (259, 1)]%N /\ cols s1 = [[10; 20]; [11; 21]]%N /\ ord1 = 2 /\ stp = SPanic /\ length recs = 2
   | _ => False
   end.
 Proof. vm_compute. repeat split; reflexivity. Qed.
